@@ -489,10 +489,13 @@ impl<'a, 'src> ExpressionParser<'a, 'src>
 	
 	fn parse_parenthesized(&mut self) -> Result<expr::Expr, ()>
 	{
-		self.walker.expect(self.report, syntax::TokenKind::ParenOpen)?;
+		let tk_open = self.walker.expect(self.report, syntax::TokenKind::ParenOpen)?;
 		let expr = self.parse_expr()?;
-		self.walker.expect(self.report, syntax::TokenKind::ParenClose)?;
-		Ok(expr)
+		let tk_close = self.walker.expect(self.report, syntax::TokenKind::ParenClose)?;
+
+		// The parentheses are part of what was written
+		let span = tk_open.span.join(tk_close.span);
+		Ok(expr.with_span(span))
 	}
 	
 	
